@@ -198,6 +198,12 @@ fn record(seed: u64, runs: u64, target: usize, path: &str, faults: bool, palette
             b"one\x1b[31mtwo\x1b[42mthree\x1b[0m four".to_vec()
         } else if k % 6 == 5 {
             gen::gen_stream(&mut r, target, gen::Flavor::Full)
+        } else if k % 12 == 4 {
+            // control functions that END in 'm' but are not SGR (an intermediate byte or a private marker in front): they select
+            // nothing, whatever their parameters look like
+            let mut v = b"a\x1b[31 mb\x1b[44$mc\x1b[32md\x1b[0 me\x1b[?35mf\x1b[>4;2mg\x1b[41!m\x1b[1\"mh\x1b[0m ".to_vec();
+            v.extend(gen::gen_styled_text(&mut r, target / 2, false));
+            v
         } else {
             gen::gen_styled_text(&mut r, target, false)
         };
